@@ -2,7 +2,7 @@
 # tools/try_seed.sh <seed dir containing patch.diff> <Cxx> [extra check args]
 # applies the patch to /repo, runs the check, and always reverts.
 set -u
-D=$1; P=$2; shift 2
+D=$(cd "$1" && pwd); P=$2; shift 2
 cd /repo || exit 9
 git diff --quiet || { echo "/repo not clean"; exit 9; }
 git apply "$D/patch.diff" || { echo "patch does not apply"; exit 9; }
